@@ -11,7 +11,7 @@ RULE = ("(values, enumerated) every int16 value (all 65536, laid out over 16 AP 
         "value passes through the real process() path) x every full-scale/max-int pair SpikeGLX writes for NP2 "
         "(0.5/8192, 0.62/2048, 0.62/8192, 0.6/512) x processing windows {1200, 2400, 60000}, post_check off. (structure, "
         "Hypothesis) 4..384 AP channels assigned to 1..4 shanks (interleaved, banks, random, one-channel shanks, absent "
-        "shanks), ns 600..20000 not aligned with the window, windows that are multiples of 12 from 1200, content seed "
+        "shanks), ns 600..20000 not aligned with the window (one small-channel case in six: 60000..180000 samples, i.e. longer than the reconstructor's own fixed 60000-sample window, with a short or a full last window), windows that are multiples of 12 from 1200, content seed "
         "over the full int16 range, drawn range/max-int (also non-SpikeGLX pairs), compress on/off, bin/cbin input, "
         "post_check on/off, optionally a second split by the same converter object (forced over the first output, or into new folders via extra=) with another window. Oracle: bytes of each probe00<s>/*.ap.bin == D[:, r_[channels of shank s, sync]]; "
         "NP2Reconstructor output == D byte for byte; reconstructed metadata == original field for field except "
@@ -53,6 +53,10 @@ def _structure(draw):
     k = draw(st.integers(0, 3 if big else 8))
     ns = max(600, k * stride + draw(st.integers(1, window)))
     ns = min(ns, 6000 if big else 20000)
+    if not big and spec["n"] <= 16 and draw(st.integers(0, 5)) == 0:
+        # longer than the reconstructor's own fixed 2 s (60000-sample) window, ending in a short or a full last window
+        ns = 60000 * draw(st.sampled_from([1, 1, 2])) + draw(st.sampled_from([0, 1, 11, 12, 577, 30000, 59999]))
+        window = 12 * draw(st.sampled_from([2500, 5000, 1700]))
     spec["ns"] = ns
     return {"mode": "structure", "spec": spec, "window": window, "content_seed": draw(st.integers(0, 2 ** 31)),
             "content_mode": draw(st.sampled_from(["full", "full", "smooth"])), "compress": draw(st.booleans()),
@@ -93,6 +97,8 @@ def run_case(case, ctx):
         nc = gm.n_channels(spec)
         D = rec.make_data(spec["ns"], nc, case["content_seed"], case["content_mode"], nsync=1)
         opts = case
+        if spec["ns"] > 60000:
+            ctx.label("longer_than_reconstructor_window", "recon_last_window_" + ("full" if spec["ns"] % 60000 == 0 else "short"))
         ctx.label("structure", "n%d" % spec["n"], "pat_" + spec["pattern"], "compress" if case["compress"] else "nocompress",
                   "cbin_in" if case["cbin_in"] else "bin_in", "post_check" if case["post_check"] else "no_post_check")
     nc = gm.n_channels(spec)
